@@ -282,12 +282,9 @@ func coqWop(o wop) string {
 	}
 }
 
-// doWrite runs a write script on the sink, then reads everything back with the matching reads.
-func doWrite(c *hx.Ctx, ops []wop) {
-	c.Eval()
-	sink := common.NewZeroCopySink(nil)
-	var sizes []uint64
-	p, msg := hx.Recover(func() {
+// applyWops runs a write script on sink; sizes are the values returned by the var-length writers.
+func applyWops(sink *common.ZeroCopySink, ops []wop) (sizes []uint64, panicked bool, msg string) {
+	panicked, msg = hx.Recover(func() {
 		for _, o := range ops {
 			switch o.Op {
 			case "WU8":
@@ -315,11 +312,79 @@ func doWrite(c *hx.Ctx, ops []wop) {
 			}
 		}
 	})
+	return
+}
+
+// sinkHistories: what a write script produces must not depend on what the sink (or the buffer it
+// was built over) held before: a sink reused after Reset, a sink over a used buffer, a sink whose
+// earlier output was backed up over, and a second run on the same sink all give the bytes a fresh
+// sink gives. (NextBytes re-slices into spare capacity, which is zero only when freshly allocated.)
+func sinkHistories(c *hx.Ctx, ops []wop, fresh []byte) {
+	n := len(fresh) + 64
+	dirty := func(b byte) []byte {
+		d := make([]byte, n)
+		for i := range d {
+			d[i] = b
+		}
+		return d
+	}
+	variants := []struct {
+		name string
+		mk   func() *common.ZeroCopySink
+	}{
+		{"reset-after-ff-fill", func() *common.ZeroCopySink {
+			s := common.NewZeroCopySink(nil)
+			s.WriteBytes(dirty(0xff))
+			s.Reset()
+			return s
+		}},
+		{"over-used-buffer", func() *common.ZeroCopySink { return common.NewZeroCopySink(dirty(0xab)[:0]) }},
+		{"backup-over-output", func() *common.ZeroCopySink {
+			s := common.NewZeroCopySink(nil)
+			s.WriteBytes(dirty(0x01))
+			s.BackUp(uint64(n))
+			return s
+		}},
+		{"second-run-after-reset", func() *common.ZeroCopySink {
+			s := common.NewZeroCopySink(nil)
+			applyWops(s, ops)
+			inv := make([]byte, len(s.Bytes()))
+			for i, b := range s.Bytes() {
+				inv[i] = ^b
+			}
+			s.Reset()
+			s.WriteBytes(inv) // leave the complement of the expected output in the spare capacity
+			s.Reset()
+			return s
+		}},
+	}
+	for _, v := range variants {
+		c.Eval()
+		c.Count("sink-history:" + v.name)
+		s := v.mk()
+		_, p, msg := applyWops(s, ops)
+		if p {
+			c.Fail("panic:sink", "writing panicked on a reused sink ("+v.name+")", map[string]interface{}{"wops": ops, "history": v.name}, msg, nil)
+			continue
+		}
+		if !bytes.Equal(s.Bytes(), fresh) {
+			c.Fail("sink:history-dependent", "the bytes a write script produces do not depend on what the sink held before",
+				map[string]interface{}{"wops": ops, "history": v.name}, hx.Hex(s.Bytes()), hx.Hex(fresh))
+		}
+	}
+}
+
+// doWrite runs a write script on the sink, then reads everything back with the matching reads.
+func doWrite(c *hx.Ctx, ops []wop) {
+	c.Eval()
+	sink := common.NewZeroCopySink(nil)
+	sizes, p, msg := applyWops(sink, ops)
 	if p {
 		c.Fail("panic:sink", "writing panicked", ops, msg, nil)
 		return
 	}
 	out := append([]byte{}, sink.Bytes()...)
+	sinkHistories(c, ops, out)
 	// oracle: read back
 	src := common.NewZeroCopySource(out)
 	ok := true
@@ -538,6 +603,17 @@ func Run(c *hx.Ctx) {
 		doRead(c, hx.UnHex(rc.Buf), rc.Ops, "replay")
 		return
 	}
+	var wc struct {
+		Wops []wop `json:"wops"`
+	}
+	if c.ReplayInput(&wc) && len(wc.Wops) > 0 {
+		doWrite(c, wc.Wops)
+		return
+	}
+	// deterministic sink-history probes: a false bool / zero bytes written where a used sink holds
+	// non-zero bytes
+	doWrite(c, []wop{{Op: "WBool", B: false}, {Op: "WBool", B: false}})
+	doWrite(c, []wop{{Op: "WU8", N: 0}, {Op: "WBool", B: false}, {Op: "WU64", N: 0}, {Op: "WVarUint", N: 0}, {Op: "WVarBytes", D: ""}})
 	for _, raw := range c.CorpusInputs() {
 		var r readCase
 		if jsonUnmarshal(raw, &r) == nil && len(r.Ops) > 0 {
